@@ -37,7 +37,7 @@ class QubitRemappingTranspiler(CircuitTranspilerProtocol):
         self._max_index = max(qubit_mapping.values())
 
     def __call__(self, circuit: ImmutableQuantumCircuit) -> ImmutableQuantumCircuit:
-        transpiled = QuantumCircuit(self._max_index + 1)
+        transpiled = QuantumCircuit(self._max_index + 1, circuit.cbit_count)
         qm = self._qubit_mapping
         try:
             for gate in circuit.gates:
